@@ -26,7 +26,7 @@ REQUIRED = ['oracle.response-correlates', 'oracle.request-answered', 'oracle.sta
 
 PROVIDERS = ['echo', 'store', 'store-file', 'find', 'mwl', 'move', 'n-action', 'n-event-report', 'get-store']
 IDS = [0, 1, 2, 0x7FFF, 0x8000, 0xFFFE, 0xFFFF]
-N = {'quick': 3000, 'thorough': 90000}
+N = {'quick': 3000, 'thorough': 400000}
 
 
 def exhaustive(tier):
